@@ -605,6 +605,25 @@ func (e *vc23Env) dump() []interface{} {
 	return vL(acct.TotalBoxes, acct.TotalBoxBytes, boxes, g, ls)
 }
 
+// history 0 is scripted: the observation recorded as C23_update_after_creator_closeout, replayed
+// on the real code together with the neighbouring cases the model distinguishes
+type vc23Fixed struct {
+	sender int
+	oc     string // noop optin closeout update
+	gs     basics.StateSchema
+}
+
+var vc23Script = [][]vc23Fixed{
+	{{1, "optin", basics.StateSchema{}}},
+	{{1, "closeout", basics.StateSchema{}}, {2, "update", basics.StateSchema{}}, // refused: recovered panic
+		{2, "noop", basics.StateSchema{}}, {1, "update", basics.StateSchema{}}}, // the creator itself may update
+	{{2, "update", basics.StateSchema{}}}, // one block later: accepted
+	{{1, "optin", basics.StateSchema{}}, {1, "closeout", basics.StateSchema{}},
+		{3, "update", basics.StateSchema{NumUint: 2, NumByteSlice: 2}}}, // size change charged to the creator: accepted
+	{{1, "optin", basics.StateSchema{}}, {1, "closeout", basics.StateSchema{}},
+		{2, "update", basics.StateSchema{NumUint: 1, NumByteSlice: 1}}}, // the sponsor is account 3 now: refused
+}
+
 func TestVerifC23(t *testing.T) {
 	out := vOpen("cases_c23.txt")
 	defer out.Close()
@@ -635,11 +654,15 @@ func TestVerifC23(t *testing.T) {
 		if rnd.Intn(6) == 0 {
 			e.keys[0] = rnd.Bytes(proto.MaxAppKeyLen)
 		}
+		scripted := h == 0
 		gs := basics.StateSchema{NumUint: uint64(1 + rnd.Intn(3)), NumByteSlice: uint64(1 + rnd.Intn(3))}
 		ls := basics.StateSchema{NumUint: uint64(1 + rnd.Intn(2)), NumByteSlice: uint64(1 + rnd.Intn(2))}
 		if rnd.Intn(5) == 0 {
 			gs = basics.StateSchema{NumUint: uint64(rnd.Intn(2)), NumByteSlice: uint64(rnd.Intn(2))}
 			ls = basics.StateSchema{NumUint: uint64(rnd.Intn(2)), NumByteSlice: uint64(rnd.Intn(2))}
+		}
+		if scripted {
+			gs, ls = basics.StateSchema{NumUint: 1, NumByteSlice: 1}, basics.StateSchema{NumUint: 1, NumByteSlice: 1}
 		}
 		// create and fund the application
 		ev := nextBlock(t, l)
@@ -655,10 +678,16 @@ func TestVerifC23(t *testing.T) {
 		e.dump() // initial shadow
 		blocks := vL()
 		nb := 3 + rnd.Intn(nblocks)
+		if scripted {
+			nb = len(vc23Script)
+		}
 		for b := 0; b < nb; b++ {
 			ev := nextBlock(t, l)
 			calls := vL()
 			ncalls := 1 + rnd.Intn(4)
+			if scripted {
+				ncalls = len(vc23Script[b])
+			}
 			type pend struct {
 				idx  int
 				call []interface{}
@@ -711,11 +740,28 @@ func TestVerifC23(t *testing.T) {
 						oc, ocT = transactions.DeleteApplicationOC, vSym("delete")
 					}
 				}
-				tx.OnCompletion = oc
 				nops := rnd.Intn(7)
 				if rnd.Intn(5) == 0 {
 					nops = 0
 				}
+				if scripted {
+					f := vc23Script[b][c]
+					sender, accts, acctNums, acctInts, nops = f.sender, nil, vL(), nil, 0
+					tx = txntest.Txn{Type: "appl", Sender: e.addrs[sender-1], ApplicationID: e.app}
+					switch f.oc {
+					case "optin":
+						oc, ocT = transactions.OptInOC, vSym("optin")
+					case "closeout":
+						oc, ocT = transactions.CloseOutOC, vSym("closeout")
+					case "update":
+						oc = transactions.UpdateApplicationOC
+						tx.ApprovalProgram, tx.ClearStateProgram, tx.GlobalStateSchema = vc23Interpreter, vc23Interpreter, f.gs
+						ocT = vL(vSym("update"), f.gs.NumUint, f.gs.NumByteSlice)
+					default:
+						oc, ocT = transactions.NoOpOC, vSym("noop")
+					}
+				}
+				tx.OnCompletion = oc
 				script := vL()
 				total := 0
 				for i := 0; i < nops; i++ {
@@ -773,7 +819,7 @@ func TestVerifC23(t *testing.T) {
 			blocks = append(blocks, vL(calls, e.dump()))
 		}
 		out.Case(vSym("c23"), vL(proto.MaxAppKeyLen, proto.MaxBoxSize, proto.MaxAppBytesValueLen, proto.MaxAppSumKeyValueLens),
-			vL(gs.NumUint, gs.NumByteSlice), vL(ls.NumUint, ls.NumByteSlice), blocks)
+			1 /* the creator is account 1 */, vL(gs.NumUint, gs.NumByteSlice), vL(ls.NumUint, ls.NumByteSlice), blocks)
 		l.Close()
 	}
 	st := map[string]interface{}{"histories": n}
